@@ -1297,7 +1297,10 @@ class Face3D(Base2DIn3D):
         # rebuild the Face3D from the results and return them
         if len(split_faces) <= 1:
             return None  # not split (a lone cycle is the boundary without the holes)
-        return Face3D.merge_faces_to_holes(split_faces, tolerance)
+        merged_faces = Face3D.merge_faces_to_holes(split_faces, tolerance)
+        if len(merged_faces) <= 1:
+            return None  # not split (the cycles are the boundary and its holes)
+        return merged_faces
 
     def split_with_polyline(self, polyline, tolerance):
         """Split this face into two or more Face3D given an open Polyline3D.
@@ -1362,7 +1365,10 @@ class Face3D(Base2DIn3D):
         # rebuild the Face3D from the results and return them
         if len(split_faces) <= 1:
             return None  # not split (a lone cycle is the boundary without the holes)
-        return Face3D.merge_faces_to_holes(split_faces, tolerance)
+        merged_faces = Face3D.merge_faces_to_holes(split_faces, tolerance)
+        if len(merged_faces) <= 1:
+            return None  # not split (the cycles are the boundary and its holes)
+        return merged_faces
 
     def split_with_lines(self, lines, tolerance):
         """Split this face into two or more Face3D given multiple LineSegment3D.
@@ -1429,7 +1435,10 @@ class Face3D(Base2DIn3D):
         # rebuild the Face3D from the results and return them
         if len(split_faces) <= 1:
             return None  # not split (a lone cycle is the boundary without the holes)
-        return Face3D.merge_faces_to_holes(split_faces, tolerance)
+        merged_faces = Face3D.merge_faces_to_holes(split_faces, tolerance)
+        if len(merged_faces) <= 1:
+            return None  # not split (the cycles are the boundary and its holes)
+        return merged_faces
 
     def intersect_line_ray(self, line_ray):
         """Get the intersection between this face and the input LineSegment3D or Ray3D.
